@@ -64,9 +64,25 @@ where
         unsafe { &mut *self.iter.get() }
     }
 
+    pub(crate) fn complete_on_unwind(&self) -> CompleteOnUnwind<'_> {
+        CompleteOnUnwind(&self.completed)
+    }
+
     #[inline(always)]
     pub(crate) fn progress_yielded_counter(&self, num_yielded: usize) -> usize {
         self.yielded_counter.fetch_and_add(num_yielded)
+    }
+}
+
+/// Marks the iteration as completed unless it is disarmed with `std::mem::forget`.
+///
+/// It is armed while the wrapped iterator is being used: if the wrapped iterator panics, the turn of the
+/// panicking thread can never be passed on, and the threads waiting for it must be released instead.
+pub(crate) struct CompleteOnUnwind<'a>(&'a AtomicBool);
+
+impl Drop for CompleteOnUnwind<'_> {
+    fn drop(&mut self) {
+        self.0.store(true, atomic::Ordering::SeqCst);
     }
 }
 
@@ -117,7 +133,9 @@ where
                 // item_idx==yielded_count => it is our job to provide the item
                 Ordering::Equal => {
                     // SAFETY: no other thread has the valid condition to iterate, they are waiting
+                    let guard = self.complete_on_unwind();
                     let next = unsafe { self.mut_iter() }.next();
+                    std::mem::forget(guard);
                     match next.is_some() {
                         true => {
                             _ = self.yielded_counter.fetch_and_increment();
@@ -149,11 +167,13 @@ where
             // SAFETY: no other thread has the valid condition to iterate, they are waiting
             let iter = unsafe { self.mut_iter() };
             let end_idx = begin_idx + n;
+            let guard = self.complete_on_unwind();
             let buffer = (begin_idx..end_idx)
                 .map(|_| iter.next())
                 .take_while(|x| x.is_some())
                 .map(|x| x.expect("is_some is checked"))
                 .collect::<Vec<_>>();
+            std::mem::forget(guard);
 
             match buffer.len() {
                 0 => {
